@@ -11,6 +11,7 @@ import (
 	basetypes "github.com/regen-network/regen-ledger/x/ecocredit/v3/base/types/v1"
 	baskettypes "github.com/regen-network/regen-ledger/x/ecocredit/v3/basket/types/v1"
 	markettypes "github.com/regen-network/regen-ledger/x/ecocredit/v3/marketplace/types/v1"
+	"github.com/regen-network/regen-ledger/x/data/v3"
 )
 
 // Profile extras used by generators.
@@ -58,10 +59,25 @@ func (w *World) Step(kind string) {
 		a := w.anyAcct("faucet")
 		d := pickOf(w, "faucetdenom", BankDenoms)
 		w.Faucet(a, sdk.NewCoins(sdk.NewInt64Coin(d, int64(1+w.intn("faucetamt", 1_000_000_000)))))
-	case "bulkBasket":
-		w.bulkBasket()
-	case "bulkOrders":
-		w.bulkOrders()
+	case "bulkBasket", "bulkOrders", "bulkAttest", "bulkHolders":
+		// a macro step runs at most once per history (they are expensive and make every later step
+		// more expensive); a second draw is an ordinary step
+		if w.Flags[map[string]string{"bulkBasket": "bulk-basket", "bulkOrders": "bulk-orders", "bulkAttest": "bulk-attest", "bulkHolders": "bulk-holders"}[kind]] {
+			w.Step(w.Profile.drawKind(w.T))
+			return
+		}
+		switch kind {
+		case "bulkBasket":
+			w.bulkBasket()
+		case "bulkOrders":
+			w.bulkOrders()
+		case "bulkAttest":
+			w.bulkAttest()
+		case "bulkHolders":
+			w.bulkHolders()
+		}
+	case "speculate":
+		w.speculate()
 	default:
 		if h, ok := w.Profile.Custom[kind]; ok {
 			h(w)
@@ -297,9 +313,16 @@ func (w *World) bulkOrders() {
 		return
 	}
 	w.Flags["bulk-orders"] = true
-	n := 101 + w.intn("bo.n", 25)
+	n, per := 101+w.intn("bo.n", 25), 3
+	if w.chance("bo.huge", 10) { // several default pages, a begin blocker with hundreds of orders due
+		n, per = 241+w.intn("bo.n2", 40), 12
+		w.Flags["bulk-orders>240"] = true
+	}
 	bt := w.C.Time
-	exps := []*time.Time{nil, nil}
+	var exps []*time.Time
+	if !w.chance("bo.allexpire", 50) {
+		exps = append(exps, nil, nil)
+	}
 	for i := 0; i < 3; i++ {
 		e := bt.Add(time.Duration(1+w.intn(fmt.Sprintf("bo.e%d", i), 120)) * time.Second)
 		exps = append(exps, &e)
@@ -307,12 +330,138 @@ func (w *World) bulkOrders() {
 	denom := w.allowedDenom("bo.denom")
 	for made := 0; made < n; {
 		var orders []*markettypes.MsgSell_Order
-		for j := 0; j < 3 && made < n; j++ {
+		for j := 0; j < per && made < n; j++ {
 			ask := sdk.NewCoin(denom, sdk.NewInt(int64(1+w.intn("bo.ask", 50))))
 			orders = append(orders, &markettypes.MsgSell_Order{BatchDenom: b.Batch.Denom, Quantity: "0.000001", AskPrice: &ask,
 				DisableAutoRetire: made%2 == 0, Expiration: exps[w.intn("bo.exp", len(exps))]})
 			made++
 		}
 		w.Deliver("sell", &markettypes.MsgSell{Seller: b.Addr.String(), Orders: orders})
+	}
+}
+
+// bulkAttest is a macro step: one attestor attests 101-130 new graphs in a single message (the
+// message has no length limit). The hashes join the pool the data generators draw from, so
+// later steps re-attest, re-anchor and register some of them.
+func (w *World) bulkAttest() {
+	w.Flags["bulk-attest"] = true
+	n := 101 + w.intn("ba.n", 30)
+	base := len(w.bulkGraphs)
+	var hs []*data.ContentHash_Graph
+	for i := 0; i < n; i++ {
+		h := make([]byte, 32)
+		for j := range h {
+			h[j] = byte(0xa0 + j)
+		}
+		h[0], h[1], h[2] = 0xbb, byte((base+i)>>8), byte(base+i)
+		if w.chance("ba.scramble", 50) { // ids are derived from a hash of the IRI: vary the leading bytes too
+			h[0], h[31] = byte(base+i), byte((base+i)*31)
+			h[1] = byte((base + i) >> 8)
+		}
+		g := &data.ContentHash_Graph{Hash: h, DigestAlgorithm: 1, CanonicalizationAlgorithm: 1}
+		hs = append(hs, g)
+		w.bulkGraphs = append(w.bulkGraphs, g)
+	}
+	w.Deliver("attest", &data.MsgAttest{Attestor: w.anyAcct("ba.attestor").String(), ContentHashes: hs})
+}
+
+// bulkHolders is a macro step: the holder of a batch sends the smallest unit to 11-14 addresses
+// that hold nothing yet, so that one batch has more holders than there are user accounts.
+func (w *World) bulkHolders() {
+	bs := w.balances(true)
+	if len(bs) == 0 {
+		w.Step("createBatch")
+		return
+	}
+	b := pickOf(w, "bh.hold", bs)
+	if b.Tradable.Cmp(big.NewRat(1, 1000)) < 0 {
+		w.Step("createBatch")
+		return
+	}
+	w.Flags["bulk-holders"] = true
+	n := 11 + w.intn("bh.n", 4)
+	for i := 0; i < n; i++ {
+		a := make([]byte, 20)
+		for j := range a {
+			a[j] = 0x77
+		}
+		a[18], a[19] = byte(w.StepIdx), byte(i)
+		c := &basetypes.MsgSend_SendCredits{BatchDenom: b.Batch.Denom, TradableAmount: "0.000001"}
+		if i%4 == 3 {
+			c = &basetypes.MsgSend_SendCredits{BatchDenom: b.Batch.Denom, RetiredAmount: "0.000001", RetirementJurisdiction: "US-WA"}
+		}
+		w.Deliver("send", &basetypes.MsgSend{Sender: b.Addr.String(), Recipient: sdk.AccAddress(a).String(), Credits: []*basetypes.MsgSend_SendCredits{c}})
+	}
+}
+
+// speculate is a step that executes one to three generated messages on a branch of the open
+// block which is then discarded: what a gas simulation does, and what DeliverTx does with a
+// transaction whose later message fails. The monitors do not see these messages (they never
+// happened as far as state is concerned); whatever they leave behind outside the store (keeper
+// fields, package variables) shows up in the steps that follow. Inside the branch the
+// generators see the branch's state, so the messages build on each other; a successful message
+// is sometimes executed a second time (the read-what-I-just-wrote path).
+func (w *World) speculate() {
+	var kinds []string
+	for _, k := range w.Profile.kinds {
+		if _, ok := Gens[k]; ok {
+			kinds = append(kinds, k)
+		}
+	}
+	if len(kinds) == 0 {
+		return
+	}
+	w.StepIdx++
+	n := 1 + w.intn("spec.n", 3)
+	saved := w.S
+	st := TStep{Kind: "spec"}
+	okN := 0
+	w.C.Sandbox(func() {
+		for i := 0; i < n; i++ {
+			var kind string
+			if w.chance("spec.byweight", 50) {
+				kind = w.Profile.drawKind(w.T)
+				if _, ok := Gens[kind]; !ok {
+					kind = kinds[w.intn("spec.kind", len(kinds))]
+				}
+			} else {
+				kind = kinds[w.intn("spec.kind", len(kinds))]
+			}
+			kind = w.remap(kind)
+			gen, ok := Gens[kind]
+			if !ok {
+				continue
+			}
+			msg := gen(w)
+			sub := Trace{}
+			sub.AddMsg(w.C, kind, msg)
+			dec, err := wireRoundTrip(w.C, msg)
+			if err != nil {
+				continue
+			}
+			res := w.C.Deliver(dec)
+			sub.SetResult(res.OK, res.Err)
+			st.Sub = append(st.Sub, sub.Steps[0])
+			if res.OK {
+				okN++
+				w.S = w.R.Take(w.C)
+				if w.chance("spec.again", 35) {
+					if dec2, err := wireRoundTrip(w.C, msg); err == nil {
+						res2 := w.C.Deliver(dec2)
+						sub.SetResult(res2.OK, res2.Err)
+						st.Sub = append(st.Sub, sub.Steps[0])
+						if res2.OK {
+							w.S = w.R.Take(w.C)
+						}
+					}
+				}
+			}
+		}
+	})
+	w.S = saved
+	w.Trace.Steps = append(w.Trace.Steps, st)
+	w.addSig("spec", true)
+	if okN > 0 {
+		w.Flags["speculative-success-discarded"] = true
 	}
 }
